@@ -1,4 +1,4 @@
-use soroban_sdk::{panic_with_error, Address, Env, IntoVal, Val};
+use soroban_sdk::{panic_with_error, symbol_short, Address, Env, IntoVal, Symbol, Val};
 
 use crate::role_transfer::RoleTransferError;
 
@@ -48,6 +48,7 @@ where
             panic_with_error!(e, RoleTransferError::InvalidPendingAccount);
         }
         e.storage().temporary().remove(pending_key);
+        e.storage().temporary().remove(&expiry_key(e, pending_key));
 
         return;
     }
@@ -61,6 +62,14 @@ where
     let live_for = live_until_ledger - current_ledger;
     e.storage().temporary().set(pending_key, new);
     e.storage().temporary().extend_ttl(pending_key, live_for, live_for);
+
+    // The storage TTL alone cannot express the offer's lifetime: overwriting an
+    // existing entry keeps its (possibly longer) TTL and a TTL is never reduced.
+    // Record the requested expiration explicitly so that `accept_transfer` can
+    // enforce it.
+    let expiry_key = expiry_key(e, pending_key);
+    e.storage().temporary().set(&expiry_key, &live_until_ledger);
+    e.storage().temporary().extend_ttl(&expiry_key, live_for, live_for);
 }
 
 /// Completes the role transfer if authorization is provided by the pending role
@@ -87,10 +96,27 @@ where
         .get::<U, Address>(pending_key)
         .unwrap_or_else(|| panic_with_error!(e, RoleTransferError::NoPendingTransfer));
 
+    let expiry_key = expiry_key(e, pending_key);
+    if let Some(live_until_ledger) = e.storage().temporary().get::<_, u32>(&expiry_key) {
+        if live_until_ledger < e.ledger().sequence() {
+            panic_with_error!(e, RoleTransferError::NoPendingTransfer);
+        }
+    }
+
     pending.require_auth();
 
     e.storage().temporary().remove(pending_key);
+    e.storage().temporary().remove(&expiry_key);
     e.storage().instance().set(active_key, &pending);
 
     pending
+}
+
+/// Key under which the requested `live_until_ledger` of the pending transfer
+/// stored at `pending_key` is kept.
+fn expiry_key<T>(e: &Env, pending_key: &T) -> (Val, Symbol)
+where
+    T: IntoVal<Env, Val>,
+{
+    (pending_key.into_val(e), symbol_short!("live_til"))
 }
